@@ -32,7 +32,9 @@ COVERAGE TABLE (statement / quantifier dimension -> explored by -> still a singl
                                 (statement says cgo-free), errors only in a dependency, GOFLAGS / GOOS from the environment
   unknown template / formatter  every level, 3 formatter spellings                                 -> single point: one name
   unknown key                   every level + package / interface struct level, 4 spellings
-  config value classes          EVERY position of the config tree (54, incl. every schema key at every level and the nested
+  config value classes          map-valued parameters (replace-type at 3 depths, template-data, _anchors) at every level x
+                                {null, {}, map, [null]} WHILE the levels above / below hold a non-empty value for the same key;
+                                EVERY position of the config tree (66, incl. every schema key at every level and the nested
                                 replace-type map) x 13 YAML value kinds; the file as text (15 shapes: tabs, duplicate keys,
                                 empty, garbage, BOM, CRLF, aliases, multi-document, deep nesting, NUL, huge scalar); the
                                 command line (8 shapes): never a panic / hang, exit status open unless the statement or the
@@ -41,7 +43,9 @@ COVERAGE TABLE (statement / quantifier dimension -> explored by -> still a singl
   invalid regular expression    include / exclude / exclude-subpkg x root / package x 4 expressions, only where in effect
   cyclic templated value        in effect at every level (2 cycles, also with noop so a truncated value would surface);
                                 SHADOWED at root / package / interface (decided only at package level)
-  schema-rejected data          every level while the other levels conform, look-alikes of another JSON type, both built-in
+  schema-rejected data          one file violating a custom schema while the other files share template + schema with
+                                require-template-schema-exists: false (several runs: order-dependent state);
+                                every level while the other levels conform, look-alikes of another JSON type, both built-in
                                 templates; custom schema (C10 worlds)
   conflicting output file       source packages (also same NAME + same interface name), pkgname (also case only), template
                                 (also two custom URLs); root / package resp. interface / entry level; the valid look-alikes
@@ -187,6 +191,8 @@ def build_input(root, case, ch):
                 pc[["no-such-key", "interface", "configs", "cfg"][v]] = {}
             elif cls == "unknown-key-ifacestruct":
                 pc.setdefault("interfaces", {})[x] = {["no-such-key", "config_", "all", "structname"][v]: {}}
+            elif cls == "schema-data" and fl.get("feature") == "shared-template-mixed-require":
+                pass        # handled below: needs the other packages' configuration as well
             elif cls == "schema-data":
                 # rejected data at the fault's level WHILE the less specific levels (and, v3, the sibling interface) carry
                 # conforming data -- v1..v3 for the very same key, with a value of another JSON type that prints the same
@@ -295,6 +301,30 @@ def build_input(root, case, ch):
             files[out] = user_content(f, ch["layout"])
         if w["force"][f]:
             conf["force-file-write"] = True
+    if cls == "schema-data" and fl.get("feature") == "shared-template-mixed-require":
+        # every package uses ONE custom template with ONE schema; only the victim requires the schema and violates it
+        files["tmpl/ws.templ"] = CUSTOM_TEMPLATE
+        files["tmpl/ws.templ.schema.json"] = json.dumps({"type": "object", "additionalProperties": False, "required": ["need"],
+                                                         "properties": {"need": {"type": "string"}}})
+        turl = [f"file://{root}/tmpl/ws.templ", "file://tmpl/ws.templ"][v % 2]
+        for f in configured:
+            pcfg = conf["packages"][f"{MOD}/{PKG[f]}"]
+            if f != victim:
+                pcfg.setdefault("config", {}).update({"template": turl, "require-template-schema-exists": False, "template-data": {"need": "x"}})
+                continue
+            x = IFACES[f][v % 2]
+            pcfg.setdefault("config", {}).update({"template": turl, "template-data": {"need": "x"}})
+            if v >= 2:
+                pcfg["config"]["require-template-schema-exists"] = True        # else: the default (true)
+            bad = {"other": 1}
+            if level == "pkg":
+                pcfg["config"]["template-data"] = bad
+            else:
+                pcfg["interfaces"] = {n: (pcfg.get("interfaces") or {}).get(n) or {} for n in IFACES[f]}
+                if level == "iface":
+                    pcfg["interfaces"][x].setdefault("config", {})["template-data"] = bad
+                else:
+                    pcfg["interfaces"][x].setdefault("configs", [{}])[0]["template-data"] = bad
     if cls == "cyclic-shadowed":     # the overriding struct names are what a successful run writes
         vx = IFACES[victim][v % 2]
         def over_names(path_struct):
@@ -686,8 +716,9 @@ FUZZ_VALUES = {"null": None, "string": "some text", "empty-string": "", "int": 7
                "nested-map": {"a": {"b": {"c": [1, {"d": None}]}}}, "templated-string": "{{.InterfaceName}}{{ .NoSuchField }}"}
 
 
-def fuzz_config(pos, val):
-    """a valid configuration in which the value at one position of the tree is replaced by a value of one YAML kind"""
+def fuzz_config(pos, val, other="-"):
+    """a valid configuration in which the value at one position of the tree is replaced by a value of one YAML kind;
+    other = higher-nonempty / lower-nonempty: the levels above / below hold a conforming non-empty value for the same key"""
     P = f"{MOD}/ps"
     conf = {"all": False, "dir": "mocks/{{.SrcPackageName}}", "filename": "mocks.go", "pkgname": "mocks", "structname": "{{.Mock}}{{.InterfaceName}}",
             "template": "testify", "formatter": "goimports", "force-file-write": True, "template-data": {"unroll-variadic": True},
@@ -699,7 +730,31 @@ def fuzz_config(pos, val):
                                         "exclude-subpkg-regex": [], "replace-type": {}},
                              "interfaces": {"Anchor": {"config": {"structname": "AnchorMock", "template-data": {}},
                                                        "configs": [{"structname": "AnchorOne", "force-file-write": True, "template-data": {}}]}}}}}
-    path = {"root.replace-type.pkg": ["replace-type", "example.com/w/ps"], "root.replace-type.pkg.type": ["replace-type", "example.com/w/ps", "GenStruct"],
+    RT = {"example.com/w/ps": {"GenStruct": {"pkg-path": "example.com/w/ps", "type-name": "GenStruct"}}}
+    levels = [("root", []), ("pkg.config", ["packages", P, "config"]), ("iface.config", ["packages", P, "interfaces", "Anchor", "config"]),
+              ("entry", ["packages", P, "interfaces", "Anchor", "configs", 0])]
+    lv = next((k for k, (name, _) in enumerate(levels) if pos == name or pos.startswith(name + ".")), None)
+    key = next((k for k in ("replace-type", "template-data", "_anchors") if lv is not None and pos[len(levels[lv][0]):].startswith("." + k)), None)
+    if key is not None:
+        good = {"replace-type": RT, "template-data": {"unroll-variadic": True}, "_anchors": {"a": {"b": 1}}}[key]
+        for k, (name, pth) in enumerate(levels):
+            cur = conf
+            for seg in pth:
+                cur = cur[seg]
+            if k == lv:
+                if key == "replace-type":
+                    cur[key] = json.loads(json.dumps(RT))       # the path below the position exists
+                continue
+            if (other == "higher-nonempty" and k < lv) or (other == "lower-nonempty" and k > lv):
+                cur[key] = json.loads(json.dumps(good))
+            elif key == "replace-type" or (key == "template-data" and other != "-"):
+                cur.pop(key, None) if other != "-" or k != 0 else None
+    if lv is not None and pos[len(levels[lv][0]):].startswith(".replace-type"):
+        rest = pos[len(levels[lv][0]) + 1:].split(".")
+        path_generic = levels[lv][1] + ["replace-type"] + (["example.com/w/ps"] if len(rest) > 1 else []) + (["GenStruct"] if len(rest) > 2 else []) + rest[3:]
+    else:
+        path_generic = None
+    path = path_generic or {"root.replace-type.pkg": ["replace-type", "example.com/w/ps"], "root.replace-type.pkg.type": ["replace-type", "example.com/w/ps", "GenStruct"],
             "root.replace-type.pkg.type.pkg-path": ["replace-type", "example.com/w/ps", "GenStruct", "pkg-path"],
             "pkg": ["packages", P], "iface": ["packages", P, "interfaces", "Anchor"], "entry": ["packages", P, "interfaces", "Anchor", "configs", 0]}.get(pos)
     if path is None:
@@ -707,6 +762,8 @@ def fuzz_config(pos, val):
         base = {"root": [], "pkg": ["packages", P], "iface": ["packages", P, "interfaces", "Anchor"],
                 "entry": ["packages", P, "interfaces", "Anchor", "configs", 0]}[head]
         path = base + rest.split(".")
+    if pos.endswith(".replace-type.pkg.type.pkg-path") and path_generic:
+        path = path_generic
     cur = conf
     for k in path[:-1]:
         cur = cur[k]
@@ -886,7 +943,7 @@ def build_valid(case):
             del conf["packages"][f"{MOD}/ps"]
             expected = []
     if w["kind"] == "cfgfuzz":
-        conf = fuzz_config(w["pos"], w["val"])
+        conf = fuzz_config(w["pos"], w["val"], w.get("other", "-"))
     elif w["kind"] == "cfgtext":
         conf = CFG_TEXT[w["shape"]]
     return files, conf, gomod, expected
@@ -924,7 +981,7 @@ def replay_valid(ctx, item, runs, runlock):
     kinds = list(w["decls"])
     sig0 = {"world": w["kind"], "shape": w["shape"], "spelling": w["spelling"] if w["kind"] == "gomod" else "-",
             "layout": w["layout"], "has_local": bool(case.get("has_local")), "has_alias": bool(case.get("has_alias")),
-            "select": w.get("select", "all"), "pos": w.get("pos", "-"), "val": w.get("val", "-")}
+            "select": w.get("select", "all"), "pos": w.get("pos", "-"), "val": w.get("val", "-"), "other": w.get("other", "-")}
     detail = {"case": case, "config": conf if len(str(conf)) < 5000 else str(conf)[:5000], "args": list(args), "run": r.brief(),
               "decls_go": files.get("ps/decls.go")}
     out = []
@@ -1043,7 +1100,10 @@ def run(ctx):
             for k in range(1 if occupied or (combined and not thorough) else reps):
                 ch = choose_input(c, rng)
                 ch["variant"] = (v0 + (k if thorough else 2 * k)) % 4
-                items.append({"id": f"i{i}.{k}", "case": c, "choices": ch})
+                # an outcome that may depend on the order the runtime draws: the same world several times
+                order_dependent = c["world"]["fault"].get("feature") == "shared-template-mixed-require"
+                for rep_ in range(3 if order_dependent else 1):   # x 6 worlds x 2 variants of this kind
+                    items.append({"id": f"i{i}.{k}" + (f"#{rep_}" if rep_ else ""), "case": c, "choices": ch})
         vitems = [{"id": f"v{i}", "case": c} for i, c in enumerate(vcases)]
     t0 = time.time()
     results = pipetrace.pmap(lambda it: replay_input(ctx, it, runs, runlock), items, workers=10)
